@@ -92,4 +92,57 @@ theorem unflattenMeta_inv (d : Int) (sizes : List Int) (bs bs' : Shape) (names n
       simp only [pure, Except.pure, Except.ok.injEq, Option.some.injEq, Prod.mk.injEq] at h
       exact ⟨nd, _, rfl, h.2.2.symm, h.1.symm, h.2.1.symm⟩
 
+/-! ### list facts for the whole-tree split / repeat / repeat_interleave theorems -/
+
+theorem set_take_prefix (l b : List Nat) (d v : Nat) (h : l.take b.length = b) (hd : d < b.length) :
+    (l.set d v).take (b.set d v).length = b.set d v := by
+  rw [List.length_set, List.take_set, h]
+
+theorem set_append_left (b ext : List Nat) (d v : Nat) (hd : d < b.length) : (b ++ ext).set d v = b.set d v ++ ext := by
+  rw [List.set_append_left _ _ hd]
+
+theorem zipWith_mul_append_ones (bs ext r : List Nat) (h : r.length = bs.length) :
+    List.zipWith (· * ·) (bs ++ ext) (r ++ List.replicate ext.length 1) = List.zipWith (· * ·) bs r ++ ext := by
+  rw [List.zipWith_append (by omega)]
+  congr 1
+  induction ext with
+  | nil => simp
+  | cons a t ih => simp [List.replicate_succ, ih]
+
+theorem modify_append_left' (bs ext : List Nat) (d : Nat) (f : Nat → Nat) (hd : d < bs.length) :
+    (bs ++ ext).modify d f = bs.modify d f ++ ext := by
+  induction bs generalizing d with
+  | nil => simp at hd
+  | cons a t ih =>
+    cases d with
+    | zero => simp
+    | succ d => simp at hd; simp [ih d (by omega)]
+
+
+theorem cols_row_coherent (bs' : Shape) (n i : Nat) : ∀ (cols : List (String × List (TD α))), ColsOK bs' n cols →
+    CoherentList bs' (cols.filterMap fun (k, l) => l[i]?.map (fun e => (k, e)))
+  | [], _ => by simp [CoherentList]
+  | (k, l) :: rest, h => by
+    have hrest : ColsOK bs' n rest := fun c hc => h c (List.mem_cons_of_mem _ hc)
+    have ih := cols_row_coherent bs' n i rest hrest
+    simp only [List.filterMap_cons]
+    cases hi : l[i]? with
+    | none => simpa using ih
+    | some e =>
+      have hmem : e ∈ l := List.mem_of_getElem? hi
+      have := (h (k, l) (by simp)).2 e hmem
+      simp only [Option.map, CoherentList]
+      exact ⟨this.1, this.2, ih⟩
+
+theorem eraseIdx_prefix (bs ext : Shape) (d : Nat) (hd : d < bs.length) :
+    ((bs ++ ext).eraseIdx d).take (bs.eraseIdx d).length = bs.eraseIdx d := by
+  rw [List.eraseIdx_append_of_lt_length hd]
+  exact List.take_left' rfl
+
+
+theorem inferSizeImpl_neg1 (n : Nat) : inferSizeImpl [-1] n = .ok [n] := by
+  simp [inferSizeImpl, inferLoop, bind, Except.bind, pure, Except.pure]
+  intro _; exact Nat.mod_one n
+
+
 end TdVerif.C02
